@@ -13,6 +13,8 @@ package main
 // "<kind of the first differing operation>:<field>"), and every execution's trace is also written as
 // a case for the model: `run` for the copy flavour, `run_alias_trace` for the alias flavour
 // (Corr/C18.v).  DCR histories (generator of suite c12) are replayed the same way, Go side only.
+// The claims of the issued JWT access tokens, the members of read-only answers, the no-write oracle for
+// read-only endpoints and the histories that interleave read-only requests: suite_c18_claims.go.
 // State that lives OUTSIDE the storages (what clients publish at jwks_uri, sector_identifier_uri and
 // request_uri, their notification endpoints, the per-process anonymous jwt-bearer client) and the
 // world events that change it between requests: suite_c18_remote.go (Go side only; the model has no
@@ -82,6 +84,10 @@ func c18ObsDiff(o Op, a, b Obs) string {
 		return "id_token"
 	case a.Scope != b.Scope:
 		return "scope"
+	case strings.Join(a.Res, " ") != strings.Join(b.Res, " "):
+		return "resources"
+	case strings.Join(a.Aud, " ") != strings.Join(b.Aud, " "):
+		return "aud"
 	case a.Dpop != b.Dpop:
 		return "token_type"
 	case a.H != b.H:
@@ -166,12 +172,12 @@ func c18Digest(w *World) []string {
 			w.c18ClientLabel(s.ClientID), w.c18ClientLabel(s.Subject), s.GrantedScopes, w.c18Name(s.CallbackID, jti), w.c18Name(s.PushedAuthReqID, jti), w.c18Name(s.AuthCode, jti),
 			w.c18Name(s.CIBAAuthID, jti), s.PolicyID, w.c18Name(s.JWKThumbprint, jti), w.c18Name(s.ClientCertThumbprint, jti), steps, nonce,
 			s.RedirectURI, s.Scopes, s.State, s.Nonce, s.ResponseType, s.ResponseMode, s.CodeChallenge, s.CodeChallengeMethod,
-			w.c18Name(s.DPoPJKT, jti), s.LoginHint))
+			w.c18Name(s.DPoPJKT, jti), s.LoginHint)+w.c18DeepSession(&s, jti))
 	}
 	for _, g := range w.Stores.GrantSessions() {
 		out = append(out, fmt.Sprintf("grant client=%s sub=%q type=%s active=%q granted=%q token=%s refresh=%s code=%s jkt=%s x5t=%s",
 			w.c18ClientLabel(g.ClientID), w.c18ClientLabel(g.Subject), g.GrantType, g.ActiveScopes, g.GrantedScopes, w.c18Name(g.TokenID, jti), w.c18Name(g.RefreshToken, jti),
-			w.c18Name(g.AuthorizationCode, jti), w.c18Name(g.JWKThumbprint, jti), w.c18Name(g.ClientCertThumbprint, jti)))
+			w.c18Name(g.AuthorizationCode, jti), w.c18Name(g.JWKThumbprint, jti), w.c18Name(g.ClientCertThumbprint, jti))+w.c18DeepGrant(&g, jti))
 	}
 	for _, c := range w.c18Clients() {
 		out = append(out, fmt.Sprintf("client %s redirects=%q scopes=%q grants=%v resp=%v authn=%s jwks_uri=%s sector=%s sub=%s", w.c18ClientLabel(c.ID), c.RedirectURIs, c.ScopeIDs, c.GrantTypes, c.ResponseTypes,
@@ -223,6 +229,8 @@ type c18Trace struct {
 	Exec    c18Exec
 	Obs     []Obs
 	Digests [][]string
+	Claims  [][]string // per operation: the normalised claims of every JWT access token it handed out
+	Wrote   []string   // per operation: what a request to a read-only endpoint changed in the storage ("" nothing)
 }
 
 func c18Run(spec WorldSpec, ex c18Exec, ops []Op, extraTargets []string) c18Trace {
@@ -232,32 +240,71 @@ func c18Run(spec WorldSpec, ex c18Exec, ops []Op, extraTargets []string) c18Trac
 		panic(err)
 	}
 	w.extraTargets = append([]string(nil), extraTargets...)
+	if c18HasFlag(extraTargets, c18FlagClaims) {
+		c18EnableEmbedderClaims(w)
+	}
 	tr := c18Trace{Exec: ex}
 	for i, o := range ops {
 		w.step = i
-		tr.Obs = append(tr.Obs, c18ExecOp(w, o))
+		ep := c18ReadOnlyEndpoint(o)
+		var before map[string]string
+		if ep != "" {
+			before = c18DeepSnapshot(w)
+		}
+		obs := c18ExecOp(w, o)
+		wrote := ""
+		if ep != "" {
+			wrote = c18SnapshotDiff(before, c18DeepSnapshot(w))
+		}
+		tr.Obs = append(tr.Obs, obs)
+		tr.Wrote = append(tr.Wrote, wrote)
+		tr.Claims = append(tr.Claims, w.c18TokenClaims(obs))
 		tr.Digests = append(tr.Digests, c18Digest(w))
 	}
 	return tr
 }
 
 type c18Difference struct {
-	A, B   int // indexes into c18Execs
+	A, B   int // indexes into c18Execs (B = -1: an observation about execution A alone)
 	Op     int
 	Field  string
 	Detail string
 }
 
+// which oracles count in a comparison.  The answers and the claims of the issued JWT access tokens
+// (what a client / resource server sees) always do.
+const (
+	c18CmpStore = 1 // the storage digests after every operation
+	c18CmpWrote = 2 // writes of read-only endpoints
+	c18CmpAll   = c18CmpStore | c18CmpWrote
+)
+
+const c18WrotePrefix = "C18:read-only-endpoint-wrote:"
+
+func c18ModeOf(field string) int {
+	switch {
+	case field == "store":
+		return c18CmpStore
+	case strings.HasPrefix(field, c18WrotePrefix):
+		return c18CmpWrote
+	}
+	return 0
+}
+
 // (signature of a difference: c18Signature, suite_c18_remote.go)
 
-// first difference between two traces of the same operations (withStore: the storage digests count)
-func c18TraceDiff(ops []Op, a, b c18Trace, withStore bool) (int, string, string) {
+// first difference between two traces of the same operations
+func c18TraceDiff(ops []Op, a, b c18Trace, mode int) (int, string, string) {
 	for i := range a.Obs {
 		if f := c18ObsDiff(ops[i], a.Obs[i], b.Obs[i]); f != "" {
 			return i, f, fmt.Sprintf("%s answered %s [%d %s]; %s answered %s [%d %s]", a.Exec, a.Obs[i].coq(), a.Obs[i].Status, truncate(a.Obs[i].Raw, 160),
 				b.Exec, b.Obs[i].coq(), b.Obs[i].Status, truncate(b.Obs[i].Raw, 160))
 		}
-		if !withStore {
+		if f, d := c18ClaimsDiff(a.Claims[i], b.Claims[i]); f != "" {
+			return i, f, fmt.Sprintf("same projected answer (%s) but %s differ between %s and %s: %s", a.Obs[i].coq(),
+				map[string]string{"access_token_claims": "the claims of the JWT access token issued", "answer_members": "the members of the answer"}[f], a.Exec, b.Exec, d)
+		}
+		if mode&c18CmpStore == 0 {
 			continue
 		}
 		if d := c18DigestDiff(a.Digests[i], b.Digests[i]); d != "" {
@@ -267,12 +314,24 @@ func c18TraceDiff(ops []Op, a, b c18Trace, withStore bool) (int, string, string)
 	return -1, "", ""
 }
 
-// the earliest pairwise difference among the executions (ties: the pair listed first)
-func c18Compare(ops []Op, trs []c18Trace, withStore bool) *c18Difference {
+// the earliest difference among the executions (ties: a write by a read-only endpoint first - it is
+// the cause, not the symptom - then the pair listed first)
+func c18Compare(ops []Op, trs []c18Trace, mode int) *c18Difference {
 	var best *c18Difference
+	if mode&c18CmpWrote != 0 {
+		for a := range trs {
+			for i, wr := range trs[a].Wrote {
+				if wr != "" && (best == nil || i < best.Op) {
+					best = &c18Difference{A: a, B: -1, Op: i, Field: c18WrotePrefix + c18ReadOnlyEndpoint(ops[i]),
+						Detail: fmt.Sprintf("under %s the request (answer %s) changed what is stored: %s", trs[a].Exec, trs[a].Obs[i].coq(), wr)}
+					break
+				}
+			}
+		}
+	}
 	for a := 0; a < len(trs); a++ {
 		for b := a + 1; b < len(trs); b++ {
-			if i, f, d := c18TraceDiff(ops, trs[a], trs[b], withStore); i >= 0 && (best == nil || i < best.Op) {
+			if i, f, d := c18TraceDiff(ops, trs[a], trs[b], mode); i >= 0 && (best == nil || i < best.Op) {
 				best = &c18Difference{A: a, B: b, Op: i, Field: f, Detail: d}
 			}
 		}
@@ -281,12 +340,12 @@ func c18Compare(ops []Op, trs []c18Trace, withStore bool) *c18Difference {
 }
 
 // all four executions
-func c18RunAll(spec WorldSpec, ops []Op, extra []string, withStore bool) ([]c18Trace, *c18Difference) {
+func c18RunAll(spec WorldSpec, ops []Op, extra []string, mode int) ([]c18Trace, *c18Difference) {
 	trs := make([]c18Trace, len(c18Execs))
 	for k, ex := range c18Execs {
 		trs[k] = c18Run(spec, ex, ops, extra)
 	}
-	return trs, c18Compare(ops, trs, withStore)
+	return trs, c18Compare(ops, trs, mode)
 }
 
 // ---- shrinking: handles are named by operation index, so dropping operation j renames the rest ----
@@ -326,22 +385,24 @@ func c18Drop(ops []Op, j int) []Op {
 	return out
 }
 
-func c18Shrink(spec WorldSpec, ops []Op, extra []string, d *c18Difference, withStore bool) ([]Op, []c18Trace, *c18Difference) {
+func c18Shrink(spec WorldSpec, ops []Op, extra []string, d *c18Difference, mode int) ([]Op, []c18Trace, *c18Difference) {
 	sig := c18Signature(spec, ops, d)
 	ops = append([]Op(nil), ops[:d.Op+1]...)
-	trs, cur := c18RunAll(spec, ops, extra, withStore)
+	trs, cur := c18RunAll(spec, ops, extra, mode)
 	if cur == nil || c18Signature(spec, ops, cur) != sig {
 		return nil, nil, nil
 	}
 	for j := len(ops) - 2; j >= 0; j-- {
 		cand := c18Drop(ops, j)
-		t2, d2 := c18RunAll(spec, cand, extra, withStore)
+		t2, d2 := c18RunAll(spec, cand, extra, mode)
 		if d2 != nil && c18Signature(spec, cand, d2) == sig {
 			cand = cand[:d2.Op+1]
 			ops, trs, cur = cand, t2, d2
 			for k := range trs {
 				trs[k].Obs = trs[k].Obs[:len(ops)]
 				trs[k].Digests = trs[k].Digests[:len(ops)]
+				trs[k].Claims = trs[k].Claims[:len(ops)]
+				trs[k].Wrote = trs[k].Wrote[:len(ops)]
 			}
 			if j > len(ops)-1 {
 				j = len(ops) - 1
@@ -366,7 +427,7 @@ type c18Result struct {
 }
 
 func c18Finding(h c18History, trs []c18Trace, d *c18Difference) Finding {
-	ops, t2, d2 := c18Shrink(h.Spec, h.Ops, h.Extra, d, d.Field == "store")
+	ops, t2, d2 := c18Shrink(h.Spec, h.Ops, h.Extra, d, c18ModeOf(d.Field))
 	if d2 == nil { // not reproducible in isolation: report the original
 		ops, t2, d2 = h.Ops, trs, d
 	}
@@ -374,19 +435,36 @@ func c18Finding(h c18History, trs []c18Trace, d *c18Difference) Finding {
 	for i, o := range ops {
 		lines = append(lines, fmt.Sprintf("%d: %s", i, c18Describe(o)))
 	}
-	execs := map[string]any{}
+	execs, claims, wrote := map[string]any{}, map[string]any{}, map[string]any{}
 	for _, t := range t2 {
 		var obs []string
-		for _, o := range t.Obs {
+		cl, wr := map[string][]string{}, map[string]string{}
+		for i, o := range t.Obs {
 			obs = append(obs, o.coq())
+			if i < len(t.Claims) && len(t.Claims[i]) > 0 {
+				cl[fmt.Sprint(i)] = t.Claims[i]
+			}
+			if i < len(t.Wrote) && t.Wrote[i] != "" {
+				wr[fmt.Sprint(i)] = t.Wrote[i]
+			}
 		}
 		execs[t.Exec.String()] = obs
+		claims[t.Exec.String()] = cl
+		wrote[t.Exec.String()] = wr
 	}
-	return Finding{Property: "C18", Signature: c18Signature(h.Spec, ops, d2),
-		What: fmt.Sprintf("the same %d operations behave differently under %s and under %s: first difference at operation %d (%s), field %s: %s  [history %s]",
-			len(ops), c18Execs[d2.A], c18Execs[d2.B], d2.Op, ops[d2.Op].Kind, d2.Field, d2.Detail, h.Note),
+	what, differing := "", []string{c18Execs[d2.A].String()}
+	if d2.B < 0 {
+		what = fmt.Sprintf("a request to a read-only endpoint changed what is stored: operation %d (%s) of %d, under %s: %s  [history %s]",
+			d2.Op, ops[d2.Op].Kind, len(ops), c18Execs[d2.A], d2.Detail, h.Note)
+	} else {
+		differing = append(differing, c18Execs[d2.B].String())
+		what = fmt.Sprintf("the same %d operations behave differently under %s and under %s: first difference at operation %d (%s), field %s: %s  [history %s]",
+			len(ops), c18Execs[d2.A], c18Execs[d2.B], d2.Op, ops[d2.Op].Kind, d2.Field, d2.Detail, h.Note)
+	}
+	return Finding{Property: "C18", Signature: c18Signature(h.Spec, ops, d2), What: what,
 		Replay: map[string]any{"Spec": h.Spec, "Ops": ops, "ExtraTargets": h.Extra, "operations": lines, "observations": execs,
-			"differing_executions": []string{c18Execs[d2.A].String(), c18Execs[d2.B].String()}, "first_difference_op": d2.Op, "field": d2.Field}}
+			"access_token_claims": claims, "written_by_read_only_requests": wrote,
+			"differing_executions": differing, "first_difference_op": d2.Op, "field": d2.Field}}
 }
 
 // ---- generation ----
@@ -695,12 +773,16 @@ func init() {
 		var hs []c18History
 		hs = append(hs, c18Corpus(ctx.R)...)
 		hs = append(hs, c18RemoteCorpus(ctx.R)...)
+		hs = append(hs, c18ReadOnlyCorpus(ctx.R)...)
 		n := ctx.N(128, 2000)
 		for k := 0; k < n; k++ {
 			hs = append(hs, c18Generate(ctx.R, k))
 		}
 		for k := 0; k < ctx.N(64, 600); k++ {
 			hs = append(hs, c18GenerateRemote(ctx.R, k))
+		}
+		for k := 0; k < ctx.N(48, 700); k++ {
+			hs = append(hs, c18GenerateReadOnly(ctx.R, k))
 		}
 		// the four executions of every history (independent worlds: in parallel)
 		res := make([]c18Result, len(hs))
@@ -712,7 +794,7 @@ func init() {
 			go func(i int) {
 				defer wg.Done()
 				defer func() { <-sem }()
-				trs, d := c18RunAll(hs[i].Spec, hs[i].Ops, hs[i].Extra, true)
+				trs, d := c18RunAll(hs[i].Spec, hs[i].Ops, hs[i].Extra, c18CmpAll)
 				res[i] = c18Result{H: hs[i], Traces: trs, Diff: d}
 			}(i)
 		}
@@ -735,8 +817,13 @@ func init() {
 			if r.Diff != nil {
 				ctx.Meta.Dist["histories-with-a-difference"]++
 				ds := []*c18Difference{r.Diff}
-				if r.Diff.Field == "store" { // what a client can see of it later in the same history, if anything
-					if d2 := c18Compare(r.H.Ops, r.Traces, false); d2 != nil {
+				if m := c18ModeOf(r.Diff.Field); m != 0 { // what the other oracles see of it later in the same history, if anything
+					if m == c18CmpWrote {
+						if d2 := c18Compare(r.H.Ops, r.Traces, c18CmpStore); d2 != nil {
+							ds = append(ds, d2)
+						}
+					}
+					if d2 := c18Compare(r.H.Ops, r.Traces, 0); d2 != nil && (len(ds) < 2 || *d2 != *ds[1]) {
 						ds = append(ds, d2)
 					}
 				}
@@ -766,7 +853,7 @@ func init() {
 			if okN > 0 && errN > 0 {
 				seen[sb.String()] = true
 			}
-			if c18HasPseudo(r.H.Ops) || c18SpecRemote(r.H.Spec) {
+			if c18HasPseudo(r.H.Ops) || c18SpecRemote(r.H.Spec) || c18HasFlag(r.H.Extra, c18FlagClaims) {
 				ctx.Meta.Dist["histories-compared-on-the-go-side-only"]++
 				continue
 			}
@@ -824,7 +911,7 @@ func init() {
 		ctx.Meta.Distinct = len(seen)
 		ctx.Meta.Extra = map[string]any{"histories": len(hs), "executions_per_history": 4, "pairwise_trace_comparisons": compared,
 			"dcr_histories": dh, "cases_for_the_model": len(coqCases), "histories_compared_on_the_go_side_only": ctx.Meta.Dist["histories-compared-on-the-go-side-only"]}
-		ctx.Meta.Rule = "each history (corpus of the defects found + generator profiles code/refresh, PAR/sessions, CIBA, token life cycle; static or stored clients; sometimes a registration removed and restored in mid-history) is and, for state outside the storages, directed and generated histories whose clients authenticate with private_key_jwt and publish their keys at jwks_uri (static and stored), with world events between requests - key rotation, jwks_uri outage, new contents of sector_identifier_uri / of the request object hosted at request_uri, a failing CIBA notification endpoint, DCR of jwks_uri clients, the jwt-bearer grant with and without a client - is replayed under {copy, alias} x {one instance, fresh provider.New per request}; the four projected traces and the storage digests after every operation are compared pairwise; each execution's trace is a case for the model (run / run_alias_trace); distinct by projected trace; non-trivial = at least one accepted and one refused operation"
+		ctx.Meta.Rule = "each history (corpus of the defects found + generator profiles code/refresh, PAR/sessions, CIBA, token life cycle; static or stored clients; sometimes a registration removed and restored in mid-history) is and, for state outside the storages, directed and generated histories whose clients authenticate with private_key_jwt and publish their keys at jwks_uri (static and stored), with world events between requests - key rotation, jwks_uri outage, new contents of sector_identifier_uri / of the request object hosted at request_uri, a failing CIBA notification endpoint, DCR of jwks_uri clients, the jwt-bearer grant with and without a client - is replayed under {copy, alias} x {one instance, fresh provider.New per request}; the four projected traces and the storage digests after every operation are compared pairwise; the transcript of an execution also holds the normalised claims of every JWT access token issued and every member of the introspection / userinfo answers; read-only requests (introspection, userinfo, TokenInfo helpers, discovery, jwks; directed blocks between the state changing steps of code / hybrid / CIBA flows with JWT and opaque tokens, and a generator dimension) must leave a deep snapshot of everything stored unchanged, under both storage flavours; each execution's trace is a case for the model (run / run_alias_trace); distinct by projected trace; non-trivial = at least one accepted and one refused operation"
 		for i := 0; i < len(res) && len(ctx.Meta.Samples) < 2; i += 9 {
 			var ops []string
 			for j, o := range res[i].H.Ops {
@@ -862,11 +949,17 @@ func init() {
 			spec, ops = fd.Spec, fd.Ops
 		}
 		c18InstallHooks()
-		trs, d := c18RunAll(spec, ops, extra, true)
+		trs, d := c18RunAll(spec, ops, extra, c18CmpAll)
 		for i, o := range ops {
 			fmt.Printf("%3d %s\n", i, c18Describe(o))
 			for _, t := range trs {
 				fmt.Printf("      %-34s => %s   [%d] %s\n", t.Exec, t.Obs[i].coq(), t.Obs[i].Status, truncate(t.Obs[i].Raw, 120))
+				for _, c := range t.Claims[i] {
+					fmt.Printf("      %-34s    %s\n", "", c)
+				}
+				if t.Wrote[i] != "" {
+					fmt.Printf("      %-34s    READ-ONLY REQUEST WROTE: %s\n", "", t.Wrote[i])
+				}
 			}
 		}
 		if d == nil {
